@@ -263,6 +263,13 @@ def o_padscale(case, T):
             T.cls("pad_clamped")
     else:
         require(0 <= p.start and p.stop <= n, "roi_pad of empty region leaves array: %r", p)
+        if isinstance(s.start, int) and s.start == s.stop and 0 <= s.start <= n:
+            # a zero-width region at position k is still a region with a position: "pad on each side, with clamping"
+            k0 = s.start
+            require((p.start, p.stop) == (max(0, k0 - pad), min(n, k0 + pad)), "roi_pad(%r,%d,%d)=%r: a zero-width region at %d grown by %d on each side and clamped is %d:%d", s, pad, n, p, k0, pad, max(0, k0 - pad), min(n, k0 + pad))
+            if pad > 0:
+                T.nontrivial()
+                T.cls("pad_zero_width")
     pt = R.roi_pad((s, s), pad, (n, n))
     require(pt == (p, p), "roi_pad tuple form differs")
     ns = R.roi_normalise(s, n)
